@@ -88,6 +88,11 @@ func (m *ippMsg) decode(raw []byte) error {
 
 	// Groups, dtag is a delimiter(group) tag
 	for dtag := dec.Byte(); dtag != endAttribTag; dtag = dec.Byte() {
+		// without an end-of-attributes tag the reads past the buffer keep
+		// returning zero: stop instead of collecting groups for ever
+		if err := dec.LastError(); err != nil {
+			return err
+		}
 
 		group := &attribGroup{tag: dtag}
 		if err := group.decode(dec); err != nil {
@@ -148,7 +153,10 @@ func (m *ippMsg) setPrintJobResponse(b *ippMsg) {
 	for _, g := range b.attributes {
 		if g.tag == opAttribTag {
 			for _, val := range g.val {
-				v, _ := val.(*valStr)
+				v, ok := val.(*valStr)
+				if !ok {
+					continue
+				}
 				if v.name == "printer-uri" {
 					m.uri = v.val[0]
 				} else if v.name == "requesting-user-name" {
